@@ -179,7 +179,7 @@ func allowed(inv *invocation.Token, ld delegation.Loader, hook bool) error {
 
 func runC01(w *mon.W) {
 	r := w.Rng
-	total := w.Share(w.Pick(4000, 150000))
+	total := w.Share(w.Pick(8000, 150000))
 	maxN := w.Pick(6, 8)
 	for it := 0; it < total; it++ {
 		n := r.IntN(maxN + 1)
